@@ -188,7 +188,17 @@ def _resolve(c):
 def _trait(selfty, trait, tname, method, c):
     sp = strip_generics(selfty)
     if tname == "Try" and method == "branch": return t_branch
-    if tname == "FromResidual": return t_from_residual
+    if tname == "FromResidual":
+        # <Result<T, E> as FromResidual<Result<Infallible, E2>>>: identity when E and E2 are the same type text
+        mm = re.match(r"Result<(.*)>$", selfty)
+        m2 = re.match(r"FromResidual<Result<(.*)>>$", trait)
+        same = False
+        if mm and m2:
+            a, b = split_top(mm.group(1)), split_top(m2.group(1))
+            same = len(a) == 2 and len(b) == 2 and a[1].strip() == b[1].strip()
+        if same:
+            return lambda I, a, fr, d: (none(I) if a[0].variant == "None" else err(I, a[0].cells[0].v))
+        return t_from_residual
     if tname in ("Deref", "DerefMut", "Borrow", "AsRef", "AsMut", "BorrowMut") :
         return t_deref
     if tname == "Clone": return lambda I, a, fr, d: clone_deep(I, deref(a[0]))
@@ -270,14 +280,15 @@ def _trait(selfty, trait, tname, method, c):
         return lambda I, a, fr, d: I.call_value(a[0], [c.v for c in a[1].cells] if isinstance(a[1], Agg) else [a[1]])
     if tname == "AddAssign":
         def aa(I, a, fr, d):
-            r, o = int_overflow_op("Add", a[0].cell.v, a[1])
+            r, o = int_overflow_op("Add", a[0].cell.v, deref(a[1]))
             if not I.E.branch(b_not(o), "ovf"): raise Panic("attempt to add with overflow (AddAssign)")
             a[0].cell.v = r; return unit()
         return aa
     if tname == "BitOrAssign":
         def bo(I, a, fr, d):
             x = a[0].cell.v
-            a[0].cell.v = b_or(x, a[1]) if not isinstance(x, Int) else int_binop("BitOr", x, a[1]); return unit()
+            y = deref(a[1])
+            a[0].cell.v = b_or(x, y) if not isinstance(x, Int) else int_binop("BitOr", x, y); return unit()
         return bo
     if tname == "Sum" or tname == "Product": return iters.method("sum_from", c)
     if tname == "AsDynError": return lambda I, a, fr, d: a[0]
@@ -334,7 +345,11 @@ def t_from_residual(I, a, fr, d):
                 f = None
             if f is not None:
                 return err(I, I.run_fn(f, [e]))
-            return err(I, Opaque("ConvertedError:" + et.last(), e))
+            if re.fullmatch(r"[A-Z]\w{0,3}", et.name) and I.P.enum_for_type(et, fr.fn.crate) is None:
+                # target is a generic type parameter (E: From<..>): the conversion is resolved lazily where the
+                # concrete type is known (see Interp.resolve_converted)
+                return err(I, Opaque("ConvertedError", e))
+            raise Unmodelled(f"error conversion {name} -> {et!r} (From impl not found) in {fr.fn.crate}::{fr.fn.name}")
     return err(I, e)
 
 
